@@ -114,6 +114,14 @@ impl Cmp<'_> {
                     // +0 and -0 are the same number: exact cancellation gives +0 whatever the
                     // sign of the operands, so the sign of a zero result is not judged
                     let both_zero = back == T::of(0.0) && *a == T::of(0.0);
+                    // results so small that the transformed result may be subnormal are not
+                    // judged (scaling is then not exact)
+                    let floor = if T::MANT == 23 { 1.0e-25 } else { 1.0e-250 };
+                    let tiny = a.f().abs() < floor || b.f().abs() < floor;
+                    if tiny && !both_zero {
+                        self.ev.add("values_skipped_underflow_range", 1);
+                        continue;
+                    }
                     if back.bits() != a.bits() && !(back != back && *a != *a) && !both_zero {
                         self.ok = false;
                         self.ev.violation(
@@ -303,6 +311,48 @@ fn case1<T: Elem>(case: u64, spline: bool, args: &Args, ev: &mut Ev, log: &mut E
     }
 }
 
+/// many small spline problems on *full-mantissa* non-uniform axes (h^2 is then not exactly
+/// representable, which is where a non-equivariant squaring shows), scale changes only
+fn case_small<T: Elem>(case: u64, args: &Args, ev: &mut Ev) {
+    let mut rng = Rng::derive(args.seed, "C15-small", &[case]);
+    let n = 4 + rng.below(3);
+    let x: Vec<T> = gen_axis(&mut rng, n, AxisClass::FullMantissa, &AxisOpts { max_ratio: 16.0, scale_exp: (0, 0) });
+    let data = gen_data::<T>(&mut rng, &[n], DataClass::FullMantissa, (0, 0));
+    let (d1, d2) = deriv_scales(&x, &data);
+    // NotAKnot and SecondDeriv are the rows that contain a squared interval width
+    let pair = ([0usize, 4][(case % 2) as usize], [0usize, 4][((case / 2) % 2) as usize]);
+    let boundary = match case % 5 {
+        0 => Bound::NotAKnot,
+        _ => Bound::Individual(
+            ArrayD::from_shape_vec(
+                IxDyn(&[1]),
+                vec![RB::Mixed(
+                    gen_single_boundary(&mut rng, pair.0, if pair.0 == 3 { d1 } else { d2 }),
+                    gen_single_boundary(&mut rng, pair.1, if pair.1 == 3 { d1 } else { d2 }),
+                )],
+            )
+            .unwrap(),
+        ),
+    };
+    let spec = Spec1::new(data.clone(), Some(Array1::from(x.clone())), Strat1::Spline { extrapolate: false, boundary });
+    let q: Vec<T> = (0..4).map(|_| rand_in(&mut rng, x[0], x[n - 1])).collect();
+    ev.case(hash_bits(&[&bits_of(&x), &bits_of_arr(&data)], &[T::NAME, "small"]), true);
+    ev.count("strategy", "small:".to_string() + &spec.strat.name());
+    let Outcome::Ok(base) = results1(&spec, &q) else { return };
+    let lim = if T::MANT == 23 { 12 } else { 20 };
+    let k = rng.irange(-lim, lim) as i32;
+    let j = rng.irange(-lim, lim) as i32;
+    let g = T::pow2(k);
+    let f = T::pow2(j);
+    let mut s2 = spec.clone();
+    s2.x = Some(Array1::from(x.iter().map(|v| *v * g).collect::<Vec<_>>()));
+    s2.data = data.mapv(|v| v * f);
+    s2.strat = with_strat(&spec, |b| scale_bound(b, T::pow2(j - k), T::pow2(j - 2 * k)));
+    let q2: Vec<T> = q.iter().map(|v| *v * g).collect();
+    let mut c = Cmp { ev, case, replay: spec1_json(&spec).set("queries", hexes(q.iter().copied())), ok: true };
+    c.bitwise(&format!("small-spline data*2^{j},axis*2^{k}"), &base, &results1(&s2, &q2), &|v| v * T::pow2(-j));
+}
+
 /// after an inexact transformation the axis must still be strictly increasing
 fn fix_axis<T: Flt>(s: &mut Spec1<T>) {
     if let Some(x) = &mut s.x {
@@ -390,7 +440,14 @@ fn case2<T: Elem>(case: u64, args: &Args, ev: &mut Ev, log: &mut EventLog) {
 fn main() {
     let args = Args::parse("C15");
     let n = args.budget(900, 60000);
-    let ev = run_sharded(&args, n, |case, ev, log| {
+    let mut args_main = args.clone();
+    if args.only.map_or(false, |o| o >= 10_000_000) {
+        args_main.only = Some(u64::MAX);
+    }
+    let ev = run_sharded(&args_main, n, |case, ev, log| {
+        if case == u64::MAX {
+            return;
+        }
         let f32_ = case % 5 == 4;
         match (case % 4, f32_) {
             (0, false) => case1::<f64>(case, false, &args, ev, log),
@@ -401,6 +458,25 @@ fn main() {
             (_, true) => case1::<f32>(case, true, &args, ev, log),
         }
     });
+    // a large number of cheap small-spline scale checks
+    let n_small = args.budget(600000, 4000000);
+    let mut args_small = args.clone();
+    if let Some(o) = args.only {
+        args_small.only = if o >= 10_000_000 { Some(o - 10_000_000) } else { None };
+    }
+    let ev_small = if args.only.map_or(true, |o| o >= 10_000_000) {
+        run_sharded(&args_small, n_small, |case, ev, _log| {
+            if case % 8 == 7 {
+                case_small::<f32>(10_000_000 + case, &args, ev)
+            } else {
+                case_small::<f64>(10_000_000 + case, &args, ev)
+            }
+        })
+    } else {
+        Ev::new()
+    };
+    let mut ev = ev;
+    ev.merge(ev_small);
     ev.finish(
         &args,
         "Linear / CubicSpline (every whole-set boundary, Periodic, all 25 mixed pairs with derivative \
@@ -408,7 +484,8 @@ fn main() {
          transformations: data*2^j, axis and queries*2^k (j,k in -20..20; derivative values converted), \
          both, negation, grid shifts, 2-D with independent factors for x and y - compared bitwise; \
          inexact: axis*{3,0.1,7.3}, axis+0.1, data*3, sums of two data sets - each checked against its own \
-         exact oracle. Non-trivial = non-uniform axis; distinct by input hash.",
+         exact oracle; plus a large number of small splines (n = 3..6) on full-mantissa non-uniform axes \
+         under combined scale changes. Non-trivial = non-uniform axis; distinct by input hash.",
         J::obj(),
     );
 }
